@@ -79,6 +79,10 @@ func (s *KeyStore) writeKeyRing(ring *KeyRing) (err error) {
 
 	err = s.pushNewRingState(ring)
 	if err != nil {
+		// The pending transactions have been applied to the in-memory state
+		// but have not reached the storage: undo them, otherwise this KeyRing
+		// keeps reporting changes which have never been persisted.
+		ring.rollbackPendingTX()
 		return err
 	}
 
